@@ -651,6 +651,19 @@ func runC03(r *RunCtx) error {
 		f.Size = sz
 		c03RunSpec(r, e, c03Spec{Tag: fmt.Sprintf("det:size%d", sz), CW: 100, H: 300, Provs: c03StdProvs(2), Files: []c03File{f}, Gauges: stdG(0)})
 	}
+	// many files (more than any page size a paged walk might use), some of them abandoned and removed during the walk:
+	// every other file must still be visited exactly once
+	{
+		sp := c03Spec{Tag: "det:many-files", CW: 100, H: 300, Provs: c03StdProvs(5), Gauges: stdG(0)}
+		for j := 0; j < r.Scale(130, 260); j++ {
+			if j%25 == 3 {
+				sp.Files = append(sp.Files, c03File{Start: 10, Interval: 50, Size: 777}) // no provers, old: dropped by the block
+				continue
+			}
+			sp.Files = append(sp.Files, c03PatternFile(300, []int{j % 5, (j + 2) % 5}, j%4, int64(100+j), j%2))
+		}
+		c03RunSpec(r, e, sp)
+	}
 	cnt := 0
 	for n := 1; n <= 5; n++ {
 		perms := c03Perms(n)
